@@ -30,6 +30,9 @@ func runAPIHistory(key uint64, upto int) (steps []apiStep, final *run.Violation,
 	defer env.engine.Close()
 	g := newAPIGen(r, env, time.Now().UnixMilli())
 	n := 1 + r.N(25)
+	if g.profile != "" && n < 10 {
+		n += 10
+	}
 	if upto >= 0 && upto < n {
 		n = upto
 	}
